@@ -982,6 +982,8 @@ def c17_runs(inputs):
         # the same job at other memory ceilings and thread counts (many batches): same bytes as "oligo big k3 -c"
         "oligo big k3 -c lib 1 thread 60-base batches": (lib_run("oligo", **{"in": big, "out": "@/vec.txt", "k": 3, "counts": 1, "writer": "batch", "threads": 1, "memory": 60}), ["vec.txt"]),
         "oligo big k3 -c lib 4 threads 150-base batches": (lib_run("oligo", **{"in": big, "out": "@/vec.txt", "k": 3, "counts": 1, "writer": "batch", "threads": 4, "memory": 150}), ["vec.txt"]),
+        # the same records under a name without a recognised suffix (the batched path looks at the first byte instead)
+        "oligo small.txt k3 -c -H": (cli_run(["comp", "oligo", "-i", inputs["small_txt"], "-o", "@/vec.txt", "-k", "3", "-c", "-H"]), ["vec.txt"]),
         "oligo no records": (cli_run(["comp", "oligo", "-i", none, "-o", "@/vec.txt", "-k", "3"]), ["vec.txt"]),
         "oligo no records -c": (cli_run(["comp", "oligo", "-i", none, "-o", "@/vec.txt", "-k", "3", "-c"]), ["vec.txt"]),
     }
@@ -1033,6 +1035,7 @@ C17_EQUIVALENT = [
     ["ctr small k10 (cli)", "ctr small k10 few chunks keep temp", "ctr small k10 tiny ceiling delete"],
     ["cov small k9", "cov small k9 -m 128"],
 ]
+# (the "counts" rows of small.txt are also those of small.fa; there is no run of small.fa with -c -H to pair it with)
 
 
 def c17(tier):
@@ -1044,6 +1047,8 @@ def c17(tier):
     for name, recs in (("small", recs_small), ("big", recs_big), ("clean_s", lcg_records(2, 3, 5, 12, False)), ("clean_b", lcg_records(9, 4, 10, 40, False)),
                        ("tiny", [b"ACGTACGTA", b"ACGTACGTACG", b"NNNNN"]), ("none", [])):
         inputs[name] = write_inputs(d, name, recs)["fa"]
+    inputs["small_txt"] = os.path.join(d, "small.txt")
+    shutil.copy(inputs["small"], inputs["small_txt"])
     groups = c17_runs(inputs)
     max_depth = 4 if tier == "thorough" else 3
     total_states = 0
